@@ -229,7 +229,7 @@ def run(ctx):
                 judge_merge(ctx, tracks, skip, {'kind': 'hand', 'index': hi, 'skip': skip})
                 n += 1
         ctx.nontrivial(None, n)
-    nm = 400 if ctx.tier == 'quick' else 12000
+    nm = 400 if ctx.tier == 'quick' else 40000
     for j in range(nm):
         seed = f'{ctx.seed}:{ctx.shard}:m{j}'
         if merge_case(ctx, seed):
